@@ -270,20 +270,27 @@ def verify_slice(name, tier):
     for o in obls:
         seen.setdefault(o["id"], o)
     r["failures"] = list(seen.values())
-    # vacuity canaries
+    # vacuity canaries (DESIGN §3.4 step 5): every canary must FAIL to verify
     ncan = len(sl["map"].get("canaries", []))
     r["canaries"] = ncan
     if ncan and not r["undecided"]:
-        vc = run_verus(sl["canary_path"], ["--verify-root", "--verify-function", "*canary_*", "--multiple-errors", "0", "--rlimit", "20"])
+        text = open(sl["canary_path"]).read()
+        mods = [None] + sorted(set(re.findall(r"^\s*pub mod (\w+) \{", text, re.M)))
         ok_fail = 0
-        if vc["results"] is None:
-            r["undecided"].append("canary run produced no result")
-        else:
-            res = vc["results"]
-            ok_fail = res.get("errors", 0)
-            if res.get("verified", 0) != 0 or ok_fail != ncan:
-                verified = [f["function"] for f in vc["funcs"] if f.get("success")]
-                r["undecided"].append("vacuity guard: %d canaries, %d failed as expected, verified: %s" % (ncan, ok_fail, verified))
+        verified = []
+        for m in mods:
+            sel = ["--verify-root"] if m is None else ["--verify-only-module", m]
+            vc = run_verus(sl["canary_path"], sel + ["--verify-function", "*canary_*", "--multiple-errors", "0", "--rlimit", "20"])
+            if vc["results"] is None:
+                continue  # module without canaries: verus reports "could not find function"
+            for f in vc["funcs"]:
+                if "canary_" in f["function"]:
+                    if f.get("success"):
+                        verified.append(f["function"])
+                    else:
+                        ok_fail += 1
+        if verified or ok_fail != ncan:
+            r["undecided"].append("vacuity guard: %d canaries, %d failed as expected, verified: %s" % (ncan, ok_fail, verified))
         r["canaries_failed"] = ok_fail
     r["trusted"] = scan_trusted(sl)
     r["wall"] = time.time() - t0
